@@ -126,7 +126,7 @@ def observe(im, text, envs, with_audit=True):
 
 
 def normalise(callees):
-    return {"inner-function" if c.endswith(".<locals>.choose_experiment_variant") else c for c in callees}
+    return set(callees)
 
 
 def compare(ctx, im, text, twin, envs, twin_envs, payload, position, sent, with_black=True):
